@@ -11,12 +11,15 @@ if not os.path.isdir(M):
     sh("git", "-C", "/repo", "worktree", "add", "--detach", M)
 head = sh("git", "-C", "/repo", "rev-parse", "HEAD").stdout.strip()
 here = os.path.dirname(os.path.abspath(__file__))
-want = sys.argv[1:]
+want = [a for a in sys.argv[1:] if not a.startswith("--as=")]
+as_pid = ([a[5:] for a in sys.argv[1:] if a.startswith("--as=")] or [None])[0]  # run another property's check instead
 for line in open(os.path.join(here, "..", "known_findings.txt")):
     m = re.match(r"fixed:\s+property=(\S+)\s+([0-9a-f]{7,})\s+(.*)", line)
     if not m:
         continue
     pid, commit, text = m.groups()
+    if as_pid:
+        pid = as_pid
     if want and not any(commit.startswith(w) for w in want):
         continue
     sh("git", "-C", M, "checkout", "-q", "--", ".")
